@@ -187,6 +187,8 @@ func setup(sum *Summary) (*env, error) {
 	if err := os.WriteFile(filepath.Join(e.fakePath, "go"), data, 0o755); err != nil {
 		return e, err
 	}
+	os.MkdirAll(filepath.Join(e.dir, "goroot", "bin"), 0o755)
+	os.WriteFile(filepath.Join(e.dir, "goroot", "bin", "go"), data, 0o755)
 	mp := *modelPath
 	if mp == "" {
 		mp = filepath.Join(e.verifDir, "lean", ".lake", "build", "bin", "model")
@@ -245,7 +247,7 @@ func (e *env) runProfiler(home, path, ctl string, args []string, killAt int) pro
 func (e *env) runBinary(binary string, extraEnv []string, home, path, ctl string, args []string, killAt int, fsize int64) procResult {
 	cmd := exec.Command(binary, args...)
 	cmd.Dir = e.dir
-	cmd.Env = append([]string{"HOME=" + home, "USER=vprof", "PATH=" + path, "VPROF_CTL=" + ctl, "TMPDIR=" + e.dir}, extraEnv...)
+	cmd.Env = append([]string{"HOME=" + home, "USER=vprof", "PATH=" + path, "VPROF_CTL=" + ctl, "TMPDIR=" + e.dir, "GOROOT=" + filepath.Join(e.dir, "goroot")}, extraEnv...)
 	cmd.SysProcAttr = &syscall.SysProcAttr{Setpgid: true, Credential: &syscall.Credential{Uid: runUID, Gid: runUID}}
 	var so, se strings.Builder
 	cmd.Stdout, cmd.Stderr = &so, &se
